@@ -43,6 +43,17 @@ Proof.
   exact (progress shared act ares sem counters sact nat ssem op rv (compile_l tb c) progs sh0 HH counters0 sched).
 Qed.
 
+(* A fixed covered table, of the shape the source has at the time of writing (every method's
+   accesses inside the lock, get = one locked call + its counter).  The computed exhibits in
+   Props/C03.v (example runs, refutations) use it rather than the regenerated table, so that a
+   behaviour-preserving rewrite of the source (e.g. get() taking the lock as well) cannot change
+   the number of micro-steps their schedules count on. *)
+Definition tb_ref : lock_table :=
+  mkTable CtorRLock
+    (map (fun m => mkMeth LRI m [mkStmt TDirect true])
+         [MSetItem; MGetItem; MDelItem; MPop; MPopItem; MClear; MSetDefault; MUpdate; MIor; MEq; MCopy; MLen; MContains]
+     ++ [mkMeth LRI MGet [mkStmt TCall false; mkStmt TNone false]; mkMeth LRU MGetItem [mkStmt TDirect true]]).
+
 (* ---- the hypothesis is not decorative --------------------------------------------- *)
 
 (* a table in which __setitem__'s accesses are outside the lock *)
